@@ -21,7 +21,10 @@
     * validate: `C15_validator_never_out_of_range` (the `vector::at` of the final-pass break
       cannot fail in a reachable state — stack-frame invariant, Proofs/PipelineValidate) and
       `C15_validate_routed` (C04's termination theorem on the outcome type: with enough steps
-      `Song_Validator` succeeds or throws one of the player's messages);
+      `Song_Validator` succeeds or throws one of the player's messages); `C15_parsed_song_validates`
+      joins the two: the reader emits no explicit `END` event (`parseStage_noEnd`: every `Track`
+      operation the reader uses keeps "no END event", Proofs/PipelineNoEnd), so validation of
+      EVERY parsed song is routed — no hypothesis left on parse + validate;
     * the components other properties model have no undefined-behaviour outcome:
       `C15_modelled_components_never_foreign` (RIFF C13, conf C20, VGM writer C08, WAV C14);
     * the composition: `C15_pipeline_total_partial`, `C15_pipeline_terminates`.
@@ -31,9 +34,8 @@
                  `C01_optimize_terminates_statement` is a `def`);
     * export mds the converter model never returns one of its undefined-behaviour/loop
                  constructors (`MdsNoUB`: `codec`, `headerWrap`, `bankIndex`, `riff`, writer fuel);
-    * the four `Residual`s (no model): VGM play loop, linker, definitions/commands outside
-                 C09/C11's models, a parsed song with an explicit `END` event (the reader emits
-                 none; not proved).
+    * the three `Residual`s (no model): VGM play loop, linker, definitions/commands outside
+                 C09/C11's models.
   Memory safety of the compiled binary is not a statement about these models at all: it is
   observed by ASan/UBSan on the generated inputs (checks/c15.py), not proved.
 -/
@@ -122,6 +124,13 @@ theorem C15_validate_routed (song : Song) (h : hasEndEvent song = false) :
     ∃ F, ∀ fuel, fuel ≥ F → (validateSong song fuel).routed :=
   validateTracks_routed song (noEnd_of_hasEndEvent h).1 song.tracks (noEnd_of_hasEndEvent h).2
 
+/-- **Parse + validate, no hypothesis**: whatever the text, if it parses then the parsed song has
+no explicit `END` event and `Song_Validator` on it, given enough steps, succeeds or throws one of
+the player's messages. -/
+theorem C15_parsed_song_validates (text : List Nat) (st : Mml.MmlState) (h : parseStage text = .ok st) :
+    hasEndEvent (songOf st) = false ∧ ∃ F, ∀ fuel, fuel ≥ F → (validateSong (songOf st) fuel).routed :=
+  ⟨parseStage_noEnd text st h, C15_validate_routed (songOf st) (parseStage_noEnd text st h)⟩
+
 /-- non-vacuity: a valid song, an unterminated loop and a call of a missing track -/
 def n (p : Int) : Event := { type := Tables.ev_NOTE, param := p, on := 3, off := 1 }
 def songOk : Song := { tracks := [(0, [n 1, n 2])] }
@@ -154,9 +163,7 @@ theorem C15_pipeline_total_partial (u : Residual) (files : List (String × Bytes
     exact hp.elim
   | ok st =>
     simp only []
-    by_cases hend : hasEndEvent (songOf st) = true
-    · exact ⟨0, 0, fun _ _ _ => by simp only [hend, if_true]; exact hu.endEvent st⟩
-    · have hend' : hasEndEvent (songOf st) = false := by simpa using hend
+    · have hend' : hasEndEvent (songOf st) = false := parseStage_noEnd text st hps
       obtain ⟨F, hF⟩ := C15_validate_routed (songOf st) hend'
       obtain ⟨S, P, hSP⟩ : ∃ S P, opt = true → ∀ steps passes, steps ≥ S → passes ≥ P →
           (optimizeStage (songOf st) steps passes).routed := by
@@ -164,7 +171,6 @@ theorem C15_pipeline_total_partial (u : Residual) (files : List (String × Bytes
         | false => exact ⟨0, 0, fun h => by cases h⟩
         | true => obtain ⟨S, P, h⟩ := hu.optimize rfl (songOf st); exact ⟨S, P, fun _ => h⟩
       refine ⟨max F S, P, fun b hs hpz => ?_⟩
-      simp only [hend', Bool.false_eq_true, if_false]
       have hv := hF b.steps (by omega)
       cases hvs : validateSong (songOf st) b.steps with
       | inputError m => rw [hvs] at hv; exact hv
@@ -195,7 +201,7 @@ theorem C15_pipeline_total_partial (u : Residual) (files : List (String × Bytes
 `-O` the stage hypotheses hold (neither the optimiser nor the converter runs), and the
 pipeline on a one-note song then ends in the residual's output -/
 def okResidual : Residual :=
-  { vgmPlay := fun _ _ => .ok [], link := fun _ => .ok (), mdsGap := fun _ => .ok [], endEvent := fun _ => .ok [] }
+  { vgmPlay := fun _ _ => .ok [], link := fun _ => .ok (), mdsGap := fun _ => .ok [] }
 
 example : StageHyps okResidual false .vgm where
   optimize := fun h => by cases h
@@ -203,7 +209,6 @@ example : StageHyps okResidual false .vgm where
   vgmPlay := fun _ _ => trivial
   link := fun _ => trivial
   mdsGap := fun _ => trivial
-  endEvent := fun _ => trivial
 
 example : clsOf (pipeline okResidual [] false .vgm { steps := 50, passes := 1 } (Lexer.strBytes "A c")) = 0 ∧
     clsOf (pipeline okResidual [] false .vgm { steps := 50, passes := 1 } (Lexer.strBytes "A [c")) = 1 := by
@@ -240,7 +245,7 @@ theorem C15_modelled_components_never_foreign :
 with residual stages that are themselves routed and NO hypothesis on the modelled stages. -/
 def C15_full_statement : Prop :=
   ∀ (u : Residual), (∀ inp d, (u.vgmPlay inp d).routed) → (∀ b, (u.link b).routed) →
-    (∀ inp, (u.mdsGap inp).routed) → (∀ st, (u.endEvent st).routed) →
+    (∀ inp, (u.mdsGap inp).routed) →
     ∀ (files : List (String × Bytes)) (opt : Bool) (fmt : Format) (text : List Nat),
       ∃ S P, ∀ b : Budget, b.steps ≥ S → b.passes ≥ P → (pipeline u files opt fmt b text).routed
 
